@@ -122,21 +122,20 @@ Proof.
   unfold dr_st, dr_ps in *; cbn [fst snd length] in *. lia.
 Qed.
 
-Lemma drain_polls_pos m loc now n s : 0 < n -> qof loc s <> [] -> 0 < length (dr_ps (drain m loc n now s)).
+Lemma drain_polls_pos m loc now n s : 0 < n -> 0 < qlen loc s -> 0 < length (dr_ps (drain m loc n now s)).
 Proof.
   intros Hn Hq. destruct n as [|n]; [lia|]. cbn [drain].
   destruct (pop loc s) as [[i s1]|] eqn:Ep.
   - destruct (poll_task m loc now i s1) as [s2 p]. destruct (drain m loc n now s2) as [[s3 ps] dl].
     unfold dr_ps; cbn [fst snd length]. lia.
-  - apply pop_none in Ep. contradiction.
+  - apply pop_none in Ep. lia.
 Qed.
 
-(* fuel [measure s] empties the drained queue, in either mode *)
-Lemma drain_sufficient m loc now : forall n s, measure s <= n -> qof loc (dr_st (drain m loc n now s)) = [].
+(* fuel [measure s] empties the drained queue(s), in either mode *)
+Lemma drain_sufficient m loc now : forall n s, measure s <= n -> qlen loc (dr_st (drain m loc n now s)) = 0.
 Proof.
   induction n as [|n IH]; intros s Hn; cbn [drain].
-  - unfold dr_st; cbn [fst]. pose proof (measure_queue loc s) as H.
-    destruct (qof loc s); [reflexivity|cbn [length] in H; lia].
+  - unfold dr_st; cbn [fst]. pose proof (measure_queue loc s) as H. lia.
   - destruct (pop loc s) as [[i s1]|] eqn:Ep.
     + pose proof (measure_pop _ _ _ _ Ep) as Hp.
       pose proof (poll_task_measure m loc now i s1) as Hq.
@@ -146,7 +145,7 @@ Proof.
     + unfold dr_st; cbn [fst]. apply pop_none; assumption.
 Qed.
 
-Lemma drain_empty m loc n now s : qof loc s = [] -> drain m loc n now s = (s, [], []).
+Lemma drain_empty m loc n now s : qlen loc s = 0 -> drain m loc n now s = (s, [], []).
 Proof. intros H. destruct n; cbn [drain]; [reflexivity|]. apply pop_none in H. rewrite H. reflexivity. Qed.
 
 Definition ir_st (x : st * list pinfo * list pinfo) : st := fst (fst x).
@@ -170,10 +169,16 @@ Proof.
   lia.
 Qed.
 
-Lemma quiescent_iff s : quiescent s = true <-> lq s = [] /\ cq s = [].
+Lemma quiescent_iff s : quiescent s = true <-> qlen true s = 0 /\ qlen false s = 0.
 Proof.
-  unfold quiescent. destruct (lq s), (cq s); split; intros H; try discriminate; auto;
-    destruct H; discriminate.
+  unfold quiescent, qlen. destruct (lq s), (cq s), (inj s); cbn [length]; split; intros H; try discriminate; auto;
+    destruct H; lia.
+Qed.
+
+Lemma quiescent_nil s : quiescent s = true <-> lq s = [] /\ cq s = [] /\ inj s = [].
+Proof.
+  unfold quiescent. destruct (lq s), (cq s), (inj s); split; intros H; try discriminate; auto;
+    destruct H as [H1 [H2 H3]]; discriminate.
 Qed.
 
 (* a round that starts with something runnable polls at least once *)
@@ -183,16 +188,17 @@ Proof.
   set (d1 := drain None true (measure s) now s).
   pose proof (drain_measure None true now (measure s) s) as H1. fold d1 in H1.
   pose proof (drain_measure None false now (measure (dr_st d1)) (dr_st d1)) as H2.
-  destruct (lq s) as [|x l] eqn:El.
+  destruct (qlen true s) as [|k] eqn:El.
   - (* nothing local: the first drain does nothing, the second must poll *)
     assert (Ed : d1 = (s, [], [])) by (apply drain_empty; exact El).
     rewrite Ed in *. unfold dr_st in *; cbn [fst] in *.
-    assert (Hc : qof false s <> []).
-    { cbn [qof]. intros Hc. unfold quiescent in Hq. rewrite El, Hc in Hq. discriminate. }
-    assert (0 < measure s) by (pose proof (measure_queue false s); destruct (qof false s); [contradiction|cbn [length] in *; lia]).
+    assert (Hc : 0 < qlen false s).
+    { destruct (qlen false s) eqn:Ec; [|lia]. exfalso.
+      assert (quiescent s = true) by (apply quiescent_iff; auto). congruence. }
+    assert (0 < measure s) by (pose proof (measure_queue false s); lia).
     pose proof (drain_polls_pos None false now (measure s) s H Hc). lia.
-  - assert (Hc : qof true s <> []) by (cbn [qof]; rewrite El; discriminate).
-    assert (0 < measure s) by (pose proof (measure_queue true s); destruct (qof true s); [contradiction|cbn [length] in *; lia]).
+  - assert (Hc : 0 < qlen true s) by lia.
+    assert (0 < measure s) by (pose proof (measure_queue true s); lia).
     pose proof (drain_polls_pos None true now (measure s) s H Hc) as H3. fold d1 in H3. lia.
 Qed.
 
@@ -210,7 +216,8 @@ Proof.
     rewrite ideal_round_spec in Er. cbn zeta in Er.
     rewrite (drain_empty None true (measure s) now s El) in Er. unfold dr_st, dr_ps in Er; cbn [fst snd] in Er.
     rewrite (drain_empty None false (measure s) now s Ec) in Er. cbn [fst snd] in Er.
-    inversion Er; subst s2. unfold quiescent in Eq. rewrite El, Ec in Eq. discriminate.
+    inversion Er; subst s2.
+    assert (quiescent s = true) by (apply quiescent_iff; auto). congruence.
   - pose proof (ideal_round_progress now s Eqs) as H. rewrite Er in H. unfold ir_st in H; cbn [fst] in H. lia.
 Qed.
 
